@@ -112,6 +112,30 @@ def generate(rng, tier, focus):
         for _ in range(rng.randrange(1, 6)):
             acts.append(["emit", 0, rng.choice([n(1), n(2), n(3), C])])
         cases.append((scn(subjects=[["subject"]], conns=[[kind, ["hot", 0]]], handles=3, script_=acts), {"k": "early-leave"}))
+    # a late subscriber that is satisfied by the replayed history (or leaves during it) while the source is still running; then the
+    # last other subscriber leaves: the source must be released, and a later subscriber must get a fresh connection
+    for _ in range(1500 if thorough else 200):
+        kind = rng.choice(["replay", "replay", "refcount"])
+        hist = [["emit", 0, n(rng.choice([1, 2, 3]))] for _ in range(rng.randrange(1, 4))]
+        late = scen.rand_chain(rng, ["conn", 0], 1, names=["take", "first", "take_while", "element_at"])
+        reacts = [(rng.randrange(2), ["unsub-self"])] if rng.random() < 0.3 else []
+        acts = [sub(0, ["conn", 0])] + hist + [sub(1, late, *reacts)]
+        tail = [["unsub", 0], ["emit", 0, n(4)], sub(2, ["conn", 0]), ["emit", 0, n(5)], ["unsub", 2], ["emit", 0, rng.choice([n(6), C])]]
+        acts += tail[:rng.randrange(1, len(tail) + 1)]
+        cases.append((scn(subjects=[["subject"]], conns=[[kind, ["hot", 0]]], handles=3, script_=acts), {"k": "late-early-leave"}))
+    # re-subscription from inside the terminal callback (directly, or through retry downstream)
+    for _ in range(1500 if thorough else 200):
+        kind = rng.choice(["publish", "refcount", "replay"])
+        pre = [["emit", 0, n(rng.choice([1, 2]))] for _ in range(rng.randrange(0, 3))]
+        if rng.random() < 0.5:
+            first = sub(0, ["conn", 0], (len(pre), ["sub", 1, ["conn", 0]]))      # callback number len(pre) is the terminal
+        else:
+            first = sub(0, ["op", "retry", [2], ["conn", 0]])
+        acts = [first] + ([["connect", 0, 0]] if kind == "publish" else []) + pre + [["emit", 0, rng.choice([e(4), e(4), C])]]
+        if kind == "publish":
+            acts.append(["connect", 0, 1])
+        acts += [["emit", 0, n(7)], sub(2, ["conn", 0]), ["emit", 0, n(8)], ["emit", 0, C]]
+        cases.append((scn(subjects=[["subject"]], conns=[[kind, ["hot", 0]]], handles=3, script_=acts), {"k": "resubscribe-in-terminal"}))
     # a synchronous cold source below ref_count / replay whose only subscriber leaves from inside the emission
     for _ in range(2500 if thorough else 400):
         kind = rng.choice(["refcount", "replay"])
